@@ -9,7 +9,7 @@ Driver for C16.  One request line = one run of a transaction block under a fault
 body commands: set.b.k.v.ttl  incr.b.k  get.b.k  del.b.k  adv.dt  raise      (`-` = no ttl / no deadline)
 
 Answer (one line):
-  exc=<none|fault:i|locked|body> ctx=<none|some> trace=<ev;...> outs=<r,...> locks=<b.lk.m|f.dl,...> data=<b.k=v,...> probe=<ok|lost>
+  exc=<none|fault:i|locked|body> ctx=<none|some> (`~` = empty list) trace=<ev;...> outs=<r,...> locks=<b.lk.m|f.dl,...> data=<b.k=v,...> probe=<ok|lost>
 -/
 open CashewsVerif CashewsVerif.Proto CashewsVerif.TxFault
 
@@ -84,7 +84,7 @@ def showErr : Err → String
   | .locked => "locked"
   | .body => "body"
 
-def dash (l : List String) (sep : String) : String := if l.isEmpty then "-" else sep.intercalate l
+def dash (l : List String) (sep : String) : String := if l.isEmpty then "~" else sep.intercalate l
 
 def runLine (ws : List String) : Option String := do
   let mode ← parseMode? (← field? ws "mode")
